@@ -12,13 +12,14 @@
 
    [reorder c t]: t is obtained from c by exchanging, any number of times, two adjacent
    operations that are independent: they belong to different units and neither creates the
-   context the other one reads.  (Every linearisation of the causal order of c - per-unit order
-   and creation-before-use - is reached that way: adjacent transpositions of incomparable
-   elements connect all linear extensions of a partial order; this is the assumption about the
-   goroutine scheduler made for the eager mode.)
+   context the other one reads.  [linearisation c t]: t is a permutation of c that keeps the
+   order of every two operations that are not independent (per-unit order, creation before use).
+   Every linearisation is a reordering (Proofs/CallbacksEager.v [linearisation_reorder]); that an
+   eager execution is a linearisation of the canonical order is the assumption about the
+   goroutine scheduler made for the eager mode.
 
    Definitions only. *)
-From Coq Require Import List NArith Bool.
+From Coq Require Import List NArith Bool Permutation.
 From Eino Require Import Base.Util Base.GoSlice Model.Callbacks Model.CallbacksSched.
 Import ListNotations.
 
@@ -51,6 +52,21 @@ Definition indep (x y : op) : Prop :=
 Inductive reorder : list op -> list op -> Prop :=
 | RO_refl : forall l, reorder l l
 | RO_swap : forall l a x y b, reorder l (a ++ x :: y :: b) -> indep x y -> reorder l (a ++ y :: x :: b).
+
+(* independence, decided *)
+Definition indepb (x y : op) : bool :=
+  negb (N.eqb (op_unit x) (op_unit y)) &&
+  match op_creates x with Some u => negb (existsb (N.eqb u) (op_reads y)) | None => true end &&
+  match op_creates y with Some u => negb (existsb (N.eqb u) (op_reads x)) | None => true end.
+
+(* x occurs before y *)
+Inductive before {A : Type} : list A -> A -> A -> Prop :=
+| bf_here : forall l x y, In y l -> before (x :: l) x y
+| bf_skip : forall a l x y, before l x y -> before (a :: l) x y.
+
+(* t is a permutation of c in which every two operations that are not independent keep their order *)
+Definition linearisation (c t : list op) : Prop :=
+  Permutation c t /\ forall x y, before c x y -> indepb x y = false -> before t x y.
 
 (* an eager execution of the F-C10 shape: the failing node's sibling creates its context and
    runs after the graph has reported the error.  Moves the k-th operation to the end when it
